@@ -839,6 +839,20 @@ func (s *sharedEntryAttributes) getHighestPrecedenceValueOfBranch() int32 {
 	return result
 }
 
+// getHighestPrecedenceValueOfBranchOld is getHighestPrecedenceValueOfBranch for the state before the actual transaction.
+func (s *sharedEntryAttributes) getHighestPrecedenceValueOfBranchOld() int32 {
+	result := int32(math.MaxInt32)
+	for _, e := range s.childs.GetAll() {
+		if val := e.getHighestPrecedenceValueOfBranchOld(); val < result {
+			result = val
+		}
+	}
+	if val := s.leafVariants.GetHighestPrecedenceValueOld(); val < result {
+		result = val
+	}
+	return result
+}
+
 // Validate is the highlevel function to perform validation.
 // it will multiplex all the different Validations that need to happen
 func (s *sharedEntryAttributes) Validate(ctx context.Context, resultChan chan<- *types.ValidationResultEntry, vCfg *config.Validation) {
@@ -1304,12 +1318,20 @@ func (s *sharedEntryAttributes) populateChoiceCaseResolvers(ctx context.Context)
 			// Query the Index, stored in the treeContext for the per branch highes precedence
 			v := s.treeContext.GetTreeSchemaCacheClient().GetBranchesHighesPrecedence(ctx, append(s.Path(), elem), CacheUpdateFilterExcludeOwner(s.treeContext.GetActualOwner()))
 
+			// the precedence the branch had before this transaction: what the other owners have stored and, from the
+			// tree, also the entries of the acting owner that this transaction removes
+			oldV := v
+
 			child, childExists := s.childs.GetEntry(elem)
 			// set the value from the tree as well
 			if childExists {
 				x := child.getHighestPrecedenceValueOfBranch()
 				val2 = &x
+				if o := child.getHighestPrecedenceValueOfBranchOld(); o < oldV {
+					oldV = o
+				}
 			}
+			choiceResolver.SetOldValue(elem, oldV)
 
 			if val2 != nil && v >= *val2 {
 				v = *val2
